@@ -219,18 +219,21 @@ def C18():
 def C14():
     from contracts.frames import UNITS_SCAN
     from contracts.encoder import EncodeCtx, ENTRY_UNITS
+    from contracts.document_init import DocumentInit
     from contracts.attributes import UpdateCell, UpdateRow
     from contracts import replayers as R
     return Property(
         "C14",
-        units=UNITS_SCAN + [ContractUnit(EncodeCtx()), ContractUnit(UpdateCell()), ContractUnit(UpdateRow())] + [ContractUnit(u) for u in ENTRY_UNITS],
+        units=[UNITS_SCAN[0], ContractUnit(DocumentInit()), ContractUnit(EncodeCtx()), ContractUnit(UpdateCell()), ContractUnit(UpdateRow())] + [ContractUnit(u) for u in ENTRY_UNITS],
         level="proof",
         technique="frame (modifies) contract over the encode call graph: every store/mutator site of the real AST must be justified by a "
-                  "mechanically checked rule; colour-context protocol proved on the real UnifiedRTFEncoder.encode with a fault injected at every call",
+                  "mechanically checked rule; colour-context protocol proved on the real UnifiedRTFEncoder.encode with a fault injected at every call; "
+                  "strict frame on the real RTFDocument.__init__ (symbolic execution: every store goes to the document itself or to a copy it made, "
+                  "never to a component object handed in by the caller)",
         trusted_base=[SOLVERS, ENGINE, "library internals (polars, pydantic, Pillow) keep no cross-call state visible to rtflite",
                       "call graph over-approximated by method name; fresh-expression rules of pyvc/frames.py"],
-        assumptions=["documents constructed from components they do not share with a document of another column count "
-                     "(constructor stores: known finding)"],
+        assumptions=["pydantic: model_copy() returns a new object with the same field values (assumed); RTFDocument._apply_table_spacing is used through "
+                     "a summary in unit DocumentInit (its branch needs text_indent_reference == 'table', which the list-valued field never equals)"],
         replayers={"table::": R.replay_purity, "encoding/unified_encoder.py::UnifiedRTFEncoder.encode": R.replay_purity,
                    "attributes.py::BroadcastValue": R.replay_broadcast, "encode.py::": R.replay_purity, "encoding/engine.py::": R.replay_purity},
         design_ref="4/C14, 1.6",
